@@ -1119,8 +1119,11 @@ fn gen_entity_group(g: &mut Gen) -> Vec<(String, String)> {
         g.regions[ar].body.push(Piece::C(gr));
     }
     g.use_targets();
-    let etext = g.render(er);
-    let atext = g.render(ar);
+    let mut crng = g.rng.fork();
+    let mut cstats = vec![];
+    let etext = close_names(&g.render(er), &mut crng, &mut cstats);
+    let atext = close_names(&g.render(ar), &mut crng, &mut cstats);
+    g.site_stats.extend(cstats);
     if g.split {
         vec![(format!("g{}_e.vhd", gid), etext), (format!("g{}_a.vhd", gid), atext)]
     } else {
@@ -1184,8 +1187,11 @@ fn gen_package_group(g: &mut Gen) -> Vec<(String, String)> {
     let n = 3 + g.rng.below(6);
     g.declare_items(br, n);
     g.use_targets();
-    let htext = g.render(hr);
-    let btext = g.render(br);
+    let mut crng = g.rng.fork();
+    let mut cstats = vec![];
+    let htext = close_names(&g.render(hr), &mut crng, &mut cstats);
+    let btext = close_names(&g.render(br), &mut crng, &mut cstats);
+    g.site_stats.extend(cstats);
     if g.split {
         vec![(format!("g{}_p.vhd", gid), htext), (format!("g{}_b.vhd", gid), btext)]
     } else {
